@@ -102,8 +102,14 @@ def expected_rows(events):
     return rows
 
 
-def match_rows(lines, rows):
-    """sequential matcher with the two admissible relaxations; -> (ok, message, hex bytes shown)"""
+class _End(Exception):
+    pass
+
+
+def match_rows(lines, rows, prefix=False):
+    """sequential matcher with the two admissible relaxations; -> (ok, message, hex bytes shown).
+    prefix=True: the decoder raised, so the printer did not see the end of the stream - the rows it produced must be a
+    prefix of the expected rows (rows of a byte buffer still being folded are lost with the exception)."""
     toks = [ANSI.sub("", ln).split() for ln in lines]
     shown = b""
     li = 0
@@ -111,6 +117,8 @@ def match_rows(lines, rows):
     def need(expected, what):
         nonlocal li
         if li >= len(toks):
+            if prefix:
+                raise _End()
             return "row missing for %s: %r" % (what, expected)
         if toks[li] != expected:
             return "row %d for %s: got %r, expected %r" % (li, what, toks[li], expected)
@@ -118,53 +126,65 @@ def match_rows(lines, rows):
         return None
 
     pending = None      # optional row of an (empty) non-byte list parent; may also follow the warnings right after it
-    for r in rows:
-        kind = r[0]
-        if pending is not None and kind != "warn":
-            if li < len(toks) and toks[li] == pending:
+    try:
+        for r in rows:
+            kind = r[0]
+            if pending is not None and kind != "warn":
+                if li < len(toks) and toks[li] == pending:
+                    li += 1
+                pending = None
+            if kind in ("struct", "prim", "warn"):
+                err = need(r[1], kind)
+                if err:
+                    return False, err, shown
+                if kind == "prim":
+                    shown += r[2]
+            elif kind == "listparent":
+                if li < len(toks) and toks[li] == r[1]:
+                    li += 1
+                else:
+                    pending = r[1]
+            elif kind == "bits":
+                if li >= len(toks):
+                    if prefix:
+                        raise _End()
+                    return False, "bit row missing: %r" % (r[1],), shown
+                t = toks[li]
+                if t[:len(r[1])] != r[1] or len(t) <= len(r[1]):
+                    return False, "row %d: expected bit row %r + bits, got %r" % (li, r[1], t), shown
                 li += 1
-            pending = None
-        if kind in ("struct", "prim", "warn"):
-            err = need(r[1], kind)
-            if err:
-                return False, err, shown
-            if kind == "prim":
-                shown += r[2]
-        elif kind == "listparent":
-            if li < len(toks) and toks[li] == r[1]:
-                li += 1
-            else:
-                pending = r[1]
-        elif kind == "bits":
-            if li >= len(toks):
-                return False, "bit row missing: %r" % (r[1],), shown
-            t = toks[li]
-            if t[:len(r[1])] != r[1] or len(t) <= len(r[1]):
-                return False, "row %d: expected bit row %r + bits, got %r" % (li, r[1], t), shown
-            li += 1
-        elif kind == "buffer":
-            _, btoks, warns, buf = r
-            # warnings raised inside the buffer may precede or follow the buffer's row
-            save = li
-            ok = False
-            for order in ((warns, [("b", btoks)]), ([("b", btoks)], warns)):
-                li = save
-                good = True
-                for part in order:
-                    for x in part:
-                        if need(x[1], "byte buffer" if x[0] == "b" else "warning inside buffer"):
-                            good = False
-                            break
-                    if not good:
+            elif kind == "buffer":
+                _, btoks, warns, buf = r
+                # warnings raised inside the buffer may precede or follow the buffer's row
+                save = li
+                ok = False
+                ended = False
+                for order in ((warns, [("b", btoks)]), ([("b", btoks)], warns)):
+                    li = save
+                    good = True
+                    try:
+                        for part in order:
+                            for x in part:
+                                if need(x[1], "byte buffer" if x[0] == "b" else "warning inside buffer"):
+                                    good = False
+                                    break
+                            if not good:
+                                break
+                    except _End:
+                        ended = True
                         break
-                if good:
-                    ok = True
-                    break
-            if not ok:
-                li = save
-                err = need(btoks, "byte buffer %s" % btoks[-1 if not buf else 0])
-                return False, err or "warnings inside the buffer are neither before nor after its row", shown
-            shown += buf
+                    if good:
+                        ok = True
+                        break
+                if ended:
+                    raise _End()
+                if not ok:
+                    li = save
+                    err = need(btoks, "byte buffer %s" % btoks[-1 if not buf else 0])
+                    return False, err or "warnings inside the buffer are neither before nor after its row", shown
+                shown += buf
+    except _End:
+        return True, "", shown
     if pending is not None and li < len(toks) and toks[li] == pending:
         li += 1
     if li != len(toks):
@@ -198,7 +218,7 @@ def check(case):
     lines = tp.out
     if tp.exc is not None:
         # the printer did not see the end of the stream; compare the rows it produced as a prefix
-        ok, msg, shown = match_prefix(lines, rows)
+        ok, msg, shown = match_rows(lines, rows, prefix=True)
     else:
         ok, msg, shown = match_rows(lines, rows)
         fields = b"".join(e.value.to_bytes() for e, it in zip(events, tp.items) if it[0] == "P")
@@ -218,41 +238,6 @@ def check(case):
         res.count("events-printer-lines", len(te.out))
     res.nontrivial(tp.spec["type"], tp.spec.get("cc"), tp.spec.get("enc"), mode, tp.spec["data"])
     return res
-
-
-def match_prefix(lines, rows):
-    """decoder raised: the rows produced must be a prefix of the expected rows (a buffer being folded is lost)"""
-    toks = [ANSI.sub("", ln).split() for ln in lines]
-    li = 0
-    for r in rows:
-        if li >= len(toks):
-            return True, "", b""
-        kind = r[0]
-        if kind == "listparent":
-            if toks[li] == r[1]:
-                li += 1
-            continue
-        if kind == "bits":
-            if toks[li][:len(r[1])] != r[1]:
-                return False, "row %d: expected bit row %r, got %r" % (li, r[1], toks[li]), b""
-            li += 1
-            continue
-        if kind == "buffer":
-            if toks[li] == r[1]:
-                li += 1
-            else:
-                for wr in r[2]:
-                    if li < len(toks) and toks[li] == wr[1]:
-                        li += 1
-                if li < len(toks) and toks[li] == r[1]:
-                    li += 1
-            continue
-        if toks[li] != r[1]:
-            return False, "row %d: got %r, expected %r" % (li, toks[li], r[1]), b""
-        li += 1
-    if li != len(toks):
-        return False, "%d extra row(s), first: %r" % (len(toks) - li, toks[li]), b""
-    return True, "", b""
 
 
 def shrink(case):
